@@ -129,6 +129,16 @@ Fixpoint run (ops : list op) (s : st) : list st :=
               end
   end.
 
+(* the state after the whole op list (None: some call raised) *)
+Fixpoint exec (ops : list op) (s : st) : option st :=
+  match ops with
+  | [] => Some s
+  | o :: t => match step o s with
+              | Some s' => exec t s'
+              | None => None
+              end
+  end.
+
 Fixpoint prefixes (b : bytes) : list bytes :=
   match b with
   | [] => [[]]
@@ -155,6 +165,21 @@ Definition save_ops (tmp target : path) (chunks : list bytes) : list op :=
 (* The same protocol with a temporary file that is NOT truncated when it is opened. *)
 Definition notrunc_ops (tmp target : path) (chunks : list bytes) : list op :=
   OpenNoTrunc tmp :: map (Write tmp) chunks ++ [Flush tmp; Fsync tmp; Close tmp; Rename tmp target].
+
+(* One of the calls fails (OSError): call number f of the list is not carried out, nothing after
+   it is issued, and the exception leaves the `with` block, which closes the temporary file if
+   it is open (unless the failing call was that close).  save() then raises. *)
+Definition still_open (tmp : path) (d0 : fs) (pre : list op) : bool :=
+  match exec pre (init d0) with
+  | Some s => match lookup tmp (bufs s) with Some _ => true | None => false end
+  | None => false
+  end.
+
+Definition fault_ops (tmp : path) (d0 : fs) (f : nat) (full : list op) : list op :=
+  let pre := firstn f full in
+  pre ++ (if still_open tmp d0 pre
+             && negb (match nth_error full f with Some (Close _) => true | _ => false end)
+          then [Close tmp] else []).
 
 (* The protocol issued before commit d7405e0 (open the storage file itself with "w"). *)
 Definition inplace_ops (target : path) (chunks : list bytes) : list op :=
@@ -210,13 +235,18 @@ Definition good_target (old : option bytes) (new : bytes) (c : fs) : bool :=
      obs      for crash point (k ops completed, j pending bytes written): the real
               directory afterwards (storage file, temporary file)                      *)
 Definition check_case
-  (c : option bytes * option bytes * list op * list (nat * nat * desc * desc)) : bool :=
-  let '(old, stale, ops, obs) := c in
+  (c : option bytes * option bytes * option nat * list op * list (nat * nat * desc * desc)) : bool :=
+  let '(old, stale, fault, ops, obs) := c in
   let d0 := (match old with Some o => [(0, o)] | None => [] end)
             ++ (match stale with Some o => [(1, o)] | None => [] end) in
   let new := concat (writes_of ops) in
   (* the code issues exactly the protocol the theorem is about (or nothing at all) *)
-  (match ops with [] => true | _ => list_beq op_eqb ops (save_ops 1 0 (writes_of ops)) end)
+  (match fault, ops with
+   | None, [] => true
+   | None, _ => list_beq op_eqb ops (save_ops 1 0 (writes_of ops))
+   (* fault = Some f: call number f was made to fail *)
+   | Some f, _ => list_beq op_eqb ops (fault_ops 1 d0 f (save_ops 1 0 (writes_of ops)))
+   end)
   (* every crash state of the recorded op list keeps the storage file old or new *)
   && forallb (good_target old new) (crash_states ops (init d0))
   (* the model's crash states are the directory states the real run left behind *)
@@ -228,16 +258,6 @@ Definition check_case
             obytes_beq (lookup 0 c) (interp old new dt) && obytes_beq (lookup 1 c) (interp stale new dtmp)
         | None => false
         end) obs.
-
-(* the state after the whole op list (None: some call raised) *)
-Fixpoint exec (ops : list op) (s : st) : option st :=
-  match ops with
-  | [] => Some s
-  | o :: t => match step o s with
-              | Some s' => exec t s'
-              | None => None
-              end
-  end.
 
 (* FileStorage.load on a fresh storage (file_storage.py:61): no file -> the storage stays
    empty; otherwise the whole file is parsed (json.loads + StorageModel validation), which
